@@ -57,6 +57,50 @@ impl Reg {
     }
 }
 
+/// what the harness knows about a resource: its latest fetch is pending, or was completed with a value
+#[derive(Clone, Copy, Debug, PartialEq)]
+enum RStat {
+    Pending,
+    Ready(i64),
+}
+
+/// the controllable backend of the resources: every fetch parks a sender here; `resolve` fires the latest one
+#[derive(Clone, Default)]
+struct Gate {
+    /// per resource: the sender and the value of its latest fetch
+    latest: Arc<Mutex<Vec<Option<(futures::channel::oneshot::Sender<()>, i64)>>>>,
+    stat: Arc<Mutex<Vec<RStat>>>,
+}
+
+impl Gate {
+    fn arm(&self, rid: usize, v: i64) -> futures::channel::oneshot::Receiver<()> {
+        let (tx, rx) = futures::channel::oneshot::channel();
+        let mut l = self.latest.lock().unwrap();
+        while l.len() <= rid {
+            l.push(None);
+        }
+        // a superseded fetch is never completed (its sender is dropped: the receiver errs, which nobody awaits any more)
+        l[rid] = Some((tx, v));
+        let mut st = self.stat.lock().unwrap();
+        while st.len() <= rid {
+            st.push(RStat::Pending);
+        }
+        st[rid] = RStat::Pending;
+        rx
+    }
+    fn resolve(&self, rid: usize) -> bool {
+        let taken = self.latest.lock().unwrap().get_mut(rid).and_then(|x| x.take());
+        match taken {
+            Some((tx, v)) => {
+                self.stat.lock().unwrap()[rid] = RStat::Ready(v);
+                let _ = tx.send(());
+                true
+            }
+            None => false,
+        }
+    }
+}
+
 /// what the closures of a view capture: the program's nodes, the state of the enclosing component
 /// bodies (innermost last), the key of the enclosing row
 #[derive(Clone, Default)]
@@ -66,6 +110,8 @@ struct Ctx {
     key: i64,
     path: Vec<u32>,
     reg: Reg,
+    /// the resources (`ares` lines)
+    res: Arc<Vec<AsyncDerived<i64>>>,
     /// fresh-render oracle: a new component-local signal starts with the current value of the live
     /// instance at the same place of the mounted view (component-local signals are part of the state)
     seed: Option<Reg>,
@@ -249,6 +295,28 @@ fn realise(v: &Arc<ViewD>, cx: &Ctx) -> AnyView {
             let (cx, c, x) = (cx.clone(), c.clone(), x.clone());
             (move || if eval(&cx, &c) != 0 { Err::<String, HxErr>(HxErr) } else { Ok(eval(&cx, &x).to_string()) }).into_any()
         }
+        ViewD::Sus(kid) => {
+            let (cx2, kid) = (cx.clone(), Arc::new((**kid).clone()));
+            view! {
+                <Suspense fallback=|| "wait".to_string()>
+                    {realise(&kid, &cx2)}
+                </Suspense>
+            }
+            .into_any()
+        }
+        ViewD::Tra(kid) => {
+            let (cx2, kid) = (cx.clone(), Arc::new((**kid).clone()));
+            view! {
+                <Transition fallback=|| "wait".to_string()>
+                    {realise(&kid, &cx2)}
+                </Transition>
+            }
+            .into_any()
+        }
+        ViewD::Aw(rid) => {
+            let d = cx.res[*rid];
+            (move || Suspend::new(async move { d.await.to_string() })).into_any()
+        }
         ViewD::Susp(x, a) => {
             let (cx1, x) = (cx.clone(), x.clone());
             let (cx2, a) = (cx.clone(), Arc::new((**a).clone()));
@@ -430,6 +498,10 @@ struct Live {
     written: BTreeSet<usize>,
     envs: Vec<Vec<i64>>,
     dead: bool,
+    /// the resources' expressions and their backend
+    ares: Vec<Expr>,
+    gate: Gate,
+    s_view: bool,
 }
 
 impl Live {
@@ -461,6 +533,9 @@ impl Live {
             written: BTreeSet::new(),
             envs: vec![],
             dead: false,
+            ares: vec![],
+            gate: Gate::default(),
+            s_view: false,
         }
     }
 
@@ -495,6 +570,21 @@ impl Live {
         let mut st = fo.with(|| {
             let mut cx = make_ctx(&defs, &env);
             cx.seed = Some(seed);
+            // the resources in the state they are in: completed with their value, or pending for ever
+            let stats = self.gate.stat.lock().unwrap().clone();
+            cx.res = Arc::new(
+                stats
+                    .into_iter()
+                    .map(|st| {
+                        AsyncDerived::new(move || async move {
+                            match st {
+                                RStat::Ready(v) => v,
+                                RStat::Pending => futures::future::pending::<i64>().await,
+                            }
+                        })
+                    })
+                    .collect(),
+            );
             let v = realise(&view, &cx);
             let mut st = v.build();
             st.mount(&root2, None);
@@ -621,6 +711,29 @@ impl Live {
     }
 
     fn line(&mut self, prefix: &str) -> String {
+        if self.s_view {
+            // S views are observed at idle points only
+            sched::run_until_idle(100_000);
+            self.note_tasks(true);
+            let errs = nd::take_errors();
+            let got = plain(&self.root);
+            let mut v = "ok".to_string();
+            if self.disposed {
+                if !nd::children(&self.root).is_empty() {
+                    v = "fail not-unmounted".into();
+                }
+            } else if !self.view.as_deref().map(has_tra).unwrap_or(false) {
+                // (a `<Transition>` keeps what it showed before: its oracle is the model)
+                let want = self.fresh_plain();
+                if want != got {
+                    v = "fail not-fresh".into();
+                }
+            }
+            if v == "ok" && !errs.is_empty() {
+                v = "fail dom-error".into();
+            }
+            return format!("sdom={got} ## {v}");
+        }
         self.note_tasks(true);
         let o = self.obs();
         let v = self.verdict();
@@ -640,8 +753,43 @@ impl Live {
                 self.env.push(v);
                 let mut nodes = (*self.cx.nodes).clone();
                 nodes.push(NodeH::Sig(RwSignal::new(v)));
-                self.cx = Ctx { nodes: Arc::new(nodes), reg: self.cx.reg.clone(), ..Default::default() };
+                self.cx = Ctx { nodes: Arc::new(nodes), reg: self.cx.reg.clone(), res: self.cx.res.clone(), ..Default::default() };
                 "ok".into()
+            }
+            "ares" => {
+                let Some(x) = parse_expr(&mut t) else { return "bad-op".into() };
+                // a resource reads signals (not memos: C10's subject)
+                if !t.done() || self.view.is_some() || !reads_below(&x, self.defs.len()) || reads_memo(&self.defs, &x) {
+                    return "bad-op".into();
+                }
+                let rid = self.ares.len();
+                self.ares.push(x.clone());
+                let (cx, gate) = (self.cx.clone(), self.gate.clone());
+                let d = AsyncDerived::new(move || {
+                    let v = eval(&cx, &x);
+                    let rx = gate.arm(rid, v);
+                    async move {
+                        let _ = rx.await;
+                        v
+                    }
+                });
+                let mut res = (*self.cx.res).clone();
+                res.push(d);
+                self.cx.res = Arc::new(res);
+                "ok".into()
+            }
+            "resolve" => {
+                let Some(rid) = t.next().and_then(|x| x.parse::<usize>().ok()) else { return "bad-op".into() };
+                if !t.done() || rid >= self.ares.len() || (self.view.is_some() && !self.s_view) {
+                    return "bad-op".into();
+                }
+                self.gate.resolve(rid);
+                if self.view.is_none() {
+                    // before the mount: the resource's task takes the value at once
+                    sched::run_until_idle(100_000);
+                    return "ok".into();
+                }
+                self.line("")
             }
             "memo" => {
                 let Some(b) = parse_expr(&mut t) else { return "bad-op".into() };
@@ -653,7 +801,7 @@ impl Live {
                 let cx = self.cx.clone();
                 let mut nodes = (*self.cx.nodes).clone();
                 nodes.push(NodeH::Memo(Memo::new(move |_| eval(&cx, &b))));
-                self.cx = Ctx { nodes: Arc::new(nodes), reg: self.cx.reg.clone(), ..Default::default() };
+                self.cx = Ctx { nodes: Arc::new(nodes), reg: self.cx.reg.clone(), res: self.cx.res.clone(), ..Default::default() };
                 "ok".into()
             }
             "mount" => {
@@ -662,6 +810,10 @@ impl Live {
                     return "bad-op".into();
                 }
                 self.impl_only = has_impl_only(&v);
+                self.s_view = is_s(&v);
+                if self.s_view && (is_local(&v) || !aw_ok(&v, self.ares.len(), false)) {
+                    return "bad-op".into();
+                }
                 let v = Arc::new(v);
                 self.view = Some(v.clone());
                 let cx = self.cx.clone();
@@ -707,7 +859,7 @@ impl Live {
             }
             "poll" => {
                 let Some(i) = t.next().and_then(|x| x.parse::<usize>().ok()) else { return "bad-op".into() };
-                if !t.done() || self.view.is_none() {
+                if !t.done() || self.view.is_none() || self.s_view {
                     return "bad-op".into();
                 }
                 let polled = match sched::poll_nth_ready(i) {
@@ -791,52 +943,53 @@ fn view_ok_at(v: &ViewD, n: usize, d: usize, r: bool) -> bool {
         ViewD::Susp(e, a) | ViewD::Errb(e, a) => reads_below(e, n) && view_ok_at(a, n, 0, false),
         ViewD::Eb(k) => view_ok_at(k, n, d, r),
         ViewD::Res(c, e) => expr_ok(c, n, d, r) && expr_ok(e, n, d, r),
+        ViewD::Sus(k) | ViewD::Tra(k) => view_ok_at(k, n, d, r),
+        ViewD::Aw(_) => true,
     }
 }
 
-/// runs `gen::EB_PROBES` on the real code: `true` iff no line carries a failing verdict
-fn probe_eb() -> bool {
-    let mut live: Option<Live> = None;
-    let mut ok = true;
-    for line in hx_c04::gen::EB_PROBES.lines() {
-        if line.starts_with("case ") {
-            if let Some(mut l) = live.take() {
-                let _ = catch_unwind(AssertUnwindSafe(|| {
-                    drop(l.handle.take());
-                    sched::reset();
-                    l.outer.cleanup();
-                }));
-            }
-            live = Some(Live::new());
-            continue;
-        }
-        let Some(l) = live.as_mut() else { continue };
-        match catch_unwind(AssertUnwindSafe(|| l.step(line))) {
-            Ok(s) => {
-                if s.contains("## fail") || s.contains("bad-op") {
-                    ok = false
-                }
-            }
-            Err(_) => {
-                ok = false;
-                break;
-            }
+/// S views carry no component-local state
+fn is_local(v: &ViewD) -> bool {
+    match v {
+        ViewD::Scope(..) | ViewD::ForE(..) => true,
+        ViewD::Text(_) | ViewD::Unit | ViewD::DynText(_) | ViewD::For(..) | ViewD::Res(..) | ViewD::Aw(_) => false,
+        ViewD::Elem(_, _, k) | ViewD::Susp(_, k) | ViewD::Errb(_, k) | ViewD::ForR(_, _, k) | ViewD::Eb(k) | ViewD::Sus(k) | ViewD::Tra(k) => is_local(k),
+        ViewD::Seq(a, b) | ViewD::Either(_, a, b) | ViewD::Show(_, a, b) => is_local(a) || is_local(b),
+    }
+}
+
+/// `aw` leaves name defined resources and sit below a boundary; a `<Transition>` sits at a place that exists for
+/// as long as the view is mounted (not in a branch or a row) and has no branch or row below it
+fn aw_ok(v: &ViewD, n: usize, in_b: bool) -> bool {
+    fn fixed(v: &ViewD) -> bool {
+        match v {
+            ViewD::Either(..) | ViewD::Show(..) | ViewD::For(..) | ViewD::ForR(..) | ViewD::ForE(..) => false,
+            ViewD::Text(_) | ViewD::Unit | ViewD::DynText(_) | ViewD::Res(..) | ViewD::Aw(_) => true,
+            ViewD::Elem(_, _, k) | ViewD::Susp(_, k) | ViewD::Errb(_, k) | ViewD::Scope(_, _, k) | ViewD::Eb(k) | ViewD::Sus(k) | ViewD::Tra(k) => fixed(k),
+            ViewD::Seq(a, b) => fixed(a) && fixed(b),
         }
     }
-    if let Some(mut l) = live.take() {
-        let _ = catch_unwind(AssertUnwindSafe(|| drop(l.handle.take())));
+    fn no_tra(v: &ViewD) -> bool {
+        !has_tra(v)
     }
-    sched::reset();
-    ok
+    match v {
+        ViewD::Aw(r) => in_b && *r < n,
+        ViewD::Text(_) | ViewD::Unit | ViewD::DynText(_) | ViewD::For(..) => true,
+        // S views have no error boundaries and none of the older implementation-only forms
+        ViewD::Res(..) | ViewD::Susp(..) | ViewD::Errb(..) | ViewD::Eb(..) => false,
+        ViewD::Sus(k) => aw_ok(k, n, true),
+        ViewD::Tra(k) => fixed(k) && aw_ok(k, n, true),
+        ViewD::Elem(_, _, k) | ViewD::Scope(_, _, k) => aw_ok(k, n, in_b),
+        ViewD::ForR(_, _, k) | ViewD::ForE(_, _, k) => no_tra(k) && aw_ok(k, n, in_b),
+        ViewD::Seq(a, b) => aw_ok(a, n, in_b) && aw_ok(b, n, in_b),
+        ViewD::Either(_, a, b) | ViewD::Show(_, a, b) => no_tra(a) && no_tra(b) && aw_ok(a, n, in_b) && aw_ok(b, n, in_b),
+    }
 }
 
 fn main() {
     match parse_cli() {
         Cmd::Gen { seed, n, ops, tier } => {
-            // which class of error boundaries the implementation at hand gets right (see `gen::eview`)
-            quiet_panics();
-            let eb_full = probe_eb();
-            let text = hx_c04::gen::generate(seed, n, &tier, eb_full);
+            let text = hx_c04::gen::generate(seed, n, &tier);
             std::fs::write(&ops, text).expect("write ops");
         }
         Cmd::Run { ops, out } => {
